@@ -91,6 +91,15 @@ fn check_info(info: &RunInfo, describe: &dyn Fn() -> String) -> Outcome {
     Ok(())
 }
 
+thread_local! {
+    /// Harness-level switch: offer several error kinds and a recovering sink (set per explorer worker).
+    static ALL_KINDS: std::cell::Cell<bool> = const { std::cell::Cell::new(false) };
+}
+
+fn sink_sticky(s: &FaultSink) -> bool {
+    s.is_sticky()
+}
+
 struct WScript {
     name: &'static str,
     ops: Vec<WOp>,
@@ -109,7 +118,15 @@ fn writer_body_with(ch: &Chooser, scripts: &[WScript], pools: &[usize], ends: &[
         // sinks that accept only part of each buffer or answer Interrupted: output must be identical
         FaultSink::new(ch.pick_free("sink", short_modes).clone(), None)
     } else if faults {
-        FaultSink::new(SinkMode::ChooseFail, Some(ch.clone()))
+        // any ErrorKind, and both a sink that stays broken and one that recovers after the fault (a
+        // transient fault must still be reported: a retry that re-sends part of a frame corrupts the file)
+        let s = FaultSink::new(SinkMode::ChooseFail, Some(ch.clone()));
+        if ALL_KINDS.with(|k| k.get()) {
+            let s = s.with_kinds(vec![io::ErrorKind::Other, io::ErrorKind::WouldBlock, io::ErrorKind::TimedOut]);
+            if ch.free("sink-recovers", 2) == 1 { s.not_sticky() } else { s }
+        } else {
+            s
+        }
     } else {
         FaultSink::plain()
     };
@@ -234,6 +251,12 @@ fn writer_body_with(ch: &Chooser, scripts: &[WScript], pools: &[usize], ends: &[
         }
         Some(k) => {
             ch.tag("sink-fault-injected");
+            if end != WEnd::Drop && !log.injected_seen && log.finished_ok && bytes == script.reference {
+                // a transient fault that the writer legitimately absorbed would be acceptable only if the
+                // file is complete; noodles never retries, so this branch is not expected to be taken
+                ch.tag("transient-fault-absorbed-file-complete");
+                return Ok(());
+            }
             if end != WEnd::Drop && !log.injected_seen {
                 return Err(Violation::new(
                     "writer fault=sink-write symptom=error-lost",
@@ -242,8 +265,9 @@ fn writer_body_with(ch: &Chooser, scripts: &[WScript], pools: &[usize], ends: &[
                     format!("{:?}", log.results),
                 ));
             }
-            // whatever reached the sink before the fault is a prefix of the reference file
-            if !script.reference.starts_with(&bytes) {
+            // whatever reached the sink before the fault is a prefix of the reference file (a recovering
+            // sink may accept later frames after the hole; only judged while the sink stays broken)
+            if sink_sticky(&sink) && !script.reference.starts_with(&bytes) {
                 return Err(Violation::new(
                     "writer fault=sink-write symptom=sink-prefix-differs",
                     describe(),
@@ -721,10 +745,19 @@ fn main() {
         // W2: sink faults (each fault costs one deviation) + preemptions, shared budget
         let fb = ctx.by_tier(2, 3);
         ctx.harness(Config::new("writer_faults", fb), |ch| {
+            ALL_KINDS.with(|k| k.set(false));
             writer_body(ch, &scripts_q[..3], &pools[..2], &[WEnd::Finish, WEnd::Drop], true, CostModel::Preempt)
+        });
+        // W2b: any ErrorKind (Other / WouldBlock / TimedOut) x sink stays broken or recovers
+        ctx.harness(Config::new("writer_faults_kinds", ctx.by_tier(1, 2)), |ch| {
+            ALL_KINDS.with(|k| k.set(true));
+            let r = writer_body(ch, &scripts_q[..3], &pools[..2], &[WEnd::Finish], true, CostModel::Preempt);
+            ALL_KINDS.with(|k| k.set(false));
+            r
         });
         // W3: keep calling finish() after an error was already returned (D6 family)
         ctx.harness(Config::new("writer_finish_after_error", ctx.by_tier(1, 2)), |ch| {
+            ALL_KINDS.with(|k| k.set(false));
             writer_body(ch, &scripts_q[..2], &pools[..2], &[WEnd::FinishAfterError], true, CostModel::Preempt)
         });
         // W1b: the largest pool size the statement names (window = 16 tickets): nothing may depend on it
